@@ -58,7 +58,9 @@ def run_case(case, res):
     kind = rng.choice(KINDS)
     d = rng.choice([1, 1, 2])
     p = rng.choice([1, 2, 3, 4]) if kind == "lagrange" else rng.choice([1, 3])
-    bk, a, b = hooks.gen_box(rng, d, ["unit", "unit", "shifted", "negative", "aniso", "dyadic", "tiny", "huge"])
+    bk, a, b = hooks.gen_box(rng, d, ["unit", "unit", "shifted", "negative", "aniso", "dyadic", "tiny", "huge", "integer"])
+    # the domain is handed over as float arrays (default), lists, tuples, python ints or integer-typed arrays
+    mode = rng.choice(hooks.INPUT_MODES) if (bk == "integer" or rng.random() < 0.1) else "float_array"
     maxn = 48 if d == 1 else (17 if kind in ("lagrange", "bspline", "highorder") else 33)
     pts, levs = [], []
     for k in range(d):
@@ -69,8 +71,11 @@ def run_case(case, res):
     cfg = {"grid": kind, "d": d, "p": p if kind in ("lagrange", "bspline") else None, "a": a, "b": b, "box": bk,
            "n": [len(x) for x in pts], "levels": levs}
     res.sample = {"config": cfg, "points_dim0": pts[0][:12]}
-    an, bn = np.array(a), np.array(b)
-    vol = float(np.prod(bn - an))
+    an, bn = hooks.typed(a, mode), hooks.typed(b, mode)
+    vol = float(np.prod(np.array(b, dtype=float) - np.array(a, dtype=float)))
+    cfg["input_mode"] = mode
+    if mode != "float_array":
+        res.count("domain_given_as_" + mode)
     cond = max(max(abs(a[k]), abs(b[k])) / (b[k] - a[k]) for k in range(d))
 
     def history(grid):
